@@ -443,6 +443,59 @@ def r19e(rep, F):
     rep.require_count('R19e', 'stores to atomic fields', n, 3)
 
 
+def worker_functions(F, mt):
+    """functions that run on a thread the planner creates: targets named in a std::thread construction (member-function pointer, lambda body
+    that calls a member function), one call level deep"""
+    names = set()
+    for f in mt:
+        for n in f.walk():
+            is_thread = (n['k'] == 'CXXConstructExpr' and 'std::thread' in (n.get('ty') or '')) or \
+                        (n['k'] == 'CXXNewExpr' and 'std::thread' in (n.get('alloc') or n.get('ty') or '')) or \
+                        ((n.get('callee') or '').endswith(('emplace_back', 'push_back')) and 'thread' in f.fp(n['ch'][0]))
+            if not is_thread:
+                continue
+            for x in f.walk(n['id']):
+                if x['k'] == 'DeclRefExpr' and x.get('q') and '::' in x.get('q', '') and x.get('dk') in ('Method', 'CXXMethod', 'Function'):
+                    names.add(x['q'])
+                if x['k'] == 'LambdaExpr':
+                    for h in F.lambdas_of.get(f.name, []):
+                        names.add(h.name)
+                        for c in h.walk():
+                            if c.get('callee') and c.get('crepo'):
+                                names.add(c['callee'])
+                if x['k'] == 'UnaryOperator' and x.get('op') == '&':
+                    y = f.strip(x['ch'][0])
+                    if y is not None and y.get('q'):
+                        names.add(y['q'])
+    return names
+
+
+def r19g(rep, F, mt):
+    rep.rule('R19g', 'workers never clear the shared solution registry: in a function that runs on a thread the planner created (the target of a '
+                     'std::thread construction, or a member function its lambda calls) clearSolutionPaths() is applied only to a problem '
+                     'definition the worker owns (a local / parameter clone), never to the planner\'s shared pdef_.  Adding to the shared '
+                     'registry is synchronised and monotone; clearing it from one worker erases the solutions the other workers reported, and '
+                     'the planner answers "no solution" after an exact one was found')
+    workers = worker_functions(F, mt)
+    n = 0
+    for wname in sorted(workers):
+        for f in F.by_name.get(wname, []):
+            if not f.body:
+                continue
+            for c in f.walk():
+                if (c.get('callee') or '') == B + 'ProblemDefinition::clearSolutionPaths':
+                    n += 1
+                    recv = re.sub(r'#\d+', '', f.fp(c['ch'][0]))
+                    shared = 'this.pdef_' in recv
+                    k = len([1 for o in rep.obl if o['rule'] == 'R19g' and o['function'] == f.name])
+                    rep.add('R19g', f.name, 'clears-own-registry#%d' % k, not shared, f.where(c),
+                            'clears %s, a problem definition the worker owns' % recv.split('(')[-1].rstrip(')') if not shared else
+                            'a worker thread clears the planner\'s shared problem definition (this.pdef_): the solutions the other workers '
+                            'registered are erased')
+    rep.extra['worker_functions'] = sorted(workers)
+    rep.require_count('R19g', 'clearSolutionPaths calls in worker functions', n, 2)
+
+
 def run(rep):
     units = CORE_UNITS + SPACE_UNITS + MT_UNITS
     F = facts.load_units(units)
@@ -457,6 +510,7 @@ def run(rep):
     r19c(rep, F, mt)
     r19d(rep, F)
     r19e(rep, F)
+    r19g(rep, F, mt)
     # a terminate() request from another thread must stay visible whatever the polling thread stores afterwards: eval() reads
     # the atomic request flag itself on every path (decision tree shared with C18/R18e)
     from rules import c18
